@@ -185,6 +185,22 @@ class Gen:
             return out
         return value_sample(rnd, typename, depth)
 
+    def sibling(self, desc):
+        """Another descriptor with the SAME fields whose name differs from desc's only in '/' versus '_' (both become the
+        same Python class name): the two are different record types and must stay so."""
+        from flow.record import RecordDescriptor
+        name = desc.name
+        if "/" in name:
+            other = name.replace("/", "_", 1)
+        elif "_" in name and not name.startswith("_") and not name.endswith("_") and "__" not in name:
+            other = name.replace("_", "/", 1)
+            if not other.split("/")[1][:1].isalpha():
+                other = name + "/x"
+        else:
+            other = name + "_x"
+            desc = RecordDescriptor(name + "/x", desc.get_field_tuples())
+        return desc, RecordDescriptor(other, desc.get_field_tuples())
+
     def record(self, desc, depth=0):
         rnd = self.rnd
         kw = {}
@@ -193,7 +209,12 @@ class Gen:
         kw["_source"] = rnd.choice([None, "src", "h\u00e9"])
         kw["_classification"] = rnd.choice([None, "secret"])
         kw["_generated"] = rnd.choice([T0, T0.replace(microsecond=0), pydt.datetime(1999, 12, 31, 23, 59, 59, tzinfo=pydt.timezone(pydt.timedelta(hours=2)))])
-        return desc.recordType(**kw)
+        r = desc.recordType(**kw)
+        # a record made through a descriptor is a record OF that descriptor (type name and field list)
+        if (r._desc.name, tuple(r._desc.get_field_tuples())) != (desc.name, tuple(desc.get_field_tuples())):
+            raise DescriptorMismatch("RecordDescriptor(%r, %r)(...) produced a record of type %r %r" % (
+                desc.name, list(desc.get_field_tuples()), r._desc.name, list(r._desc.get_field_tuples())))
+        return r
 
     def item(self, descs=None):
         from flow.record import GroupedRecord
@@ -204,6 +225,11 @@ class Gen:
             d = self.descriptor()
             if descs is not None:
                 descs.append(d)
+        if rnd.random() < 0.12:
+            # a sibling type is defined AFTER d and before d is used
+            d, d2 = self.sibling(d)
+            if descs is not None:
+                descs.extend([d, d2])
         r = self.record(d)
         if rnd.random() < 0.12:
             others = [self.record(rnd.choice(descs) if descs else self.descriptor()) for _ in range(rnd.randrange(1, 3))]
@@ -219,6 +245,10 @@ class Gen:
 # deep observation
 
 class Unobservable(Exception):
+    pass
+
+
+class DescriptorMismatch(Exception):
     pass
 
 
